@@ -1,4 +1,5 @@
 import Mixin.Model.Recovery
+import Mixin.Facts.ExpectedC22
 namespace Mixin.C21
 open Mixin.Recovery
 
